@@ -87,7 +87,8 @@ PhysTarget(m, req) ==
 \*   "reference" : the result is fixed completely (Resolve)
 \*   "traversal" : the request leaves the mapped roots: must be reported as not found
 \*   "contained" : the statement only fixes containment (".." inside the unmatched
-\*                 remainder; absolute physical path that lies inside a mapped root;
+\*                 remainder; absolute physical path that lies inside a mapped root - for
+\*                 these see PhysicalPathIsTranslated;
 \*                 trailing separator(s): the request names a directory, not a file)
 TrailingSep(req) == Len(req.segs) > 0 /\ req.segs[Len(req.segs)] = ""
 Class(m, req, cur) ==
@@ -98,9 +99,25 @@ Class(m, req, cur) ==
             ELSE IF TrailingSep(req) THEN "contained"
             ELSE "reference"
 
+\* An absolute physical path that lies inside a mapped root names the file below that root;
+\* the file system reaches it by translating the path back into a virtual one - the prefix p
+\* of a mapping (p, root) followed by the path below the root - and resolving that.  A root
+\* mapped at several prefixes has several translations; the statement does not rank them, so
+\* every one of them that names a file is admissible - and nothing else is.
+PhysRel(req) == WalkR({}, req.segs, [p |-> <<>>, esc |-> FALSE, loose |-> FALSE]).p
+PhysJudged(m, req) == req.base # "" /\ PhysTarget(m, req) = "in" /\ ~TrailingSep(req)
+PhysAdmissible(m, trees, req) ==
+    { ResolvePath(m, trees, m[i].virt \o PhysRel(req)) : i \in { j \in DOMAIN m : m[j].root = req.base } } \ {NoFile}
+
 \* the observation an ideal implementation makes
 IdealObs(m, trees, req, cur) ==
-    IF req.base # "" THEN [k |-> "notfound", root |-> "", rel |-> <<>>]
+    IF req.base # "" THEN
+        IF PhysTarget(m, req) = "in" /\ PhysAdmissible(m, trees, req) # {}
+        THEN LET i == CHOOSE x \in DOMAIN m :
+                         /\ m[x].root = req.base /\ ResolvePath(m, trees, m[x].virt \o PhysRel(req)) # NoFile
+                         /\ \A y \in DOMAIN m : (m[y].root = req.base /\ ResolvePath(m, trees, m[y].virt \o PhysRel(req)) # NoFile) => x <= y
+             IN ResolvePath(m, trees, m[i].virt \o PhysRel(req))
+        ELSE [k |-> "notfound", root |-> "", rel |-> <<>>]
     ELSE LET r == Resolve(m, trees, req, cur)
          IN IF r.k = "file" THEN r ELSE [k |-> "notfound", root |-> "", rel |-> <<>>]
 
@@ -114,6 +131,13 @@ Contained(m, trees, o) == o.k = "file" => (o.root \in MappedRoots(m) /\ o.rel \i
 Deterministic(o1, o2) == o1 = o2
 
 TraversalIsNotFound(m, req, cur, o) == Class(m, req, cur) = "traversal" => o.k = "notfound"
+
+\* a physical path into a mapped root yields the file one of its virtual translations
+\* resolves to (and is found if one of them names a file), nothing else
+PhysicalPathIsTranslated(m, trees, req, o) ==
+    PhysJudged(m, req) =>
+        /\ o.k = "file" => o \in PhysAdmissible(m, trees, req)
+        /\ PhysAdmissible(m, trees, req) # {} => o.k # "notfound"
 
 FirstRootWins(m, trees, req, cur, o) ==
     (Class(m, req, cur) = "reference" /\ o.k = "file") =>
@@ -141,13 +165,15 @@ ResolvesToReference(m, trees, req, cur, o) ==
 
 \* the operation acts on the content of the resolved file (loadFile returns it, execVM runs it)
 ActsOnContent(m, trees, req, cur, o) ==
-    (Class(m, req, cur) = "reference" /\ Resolve(m, trees, req, cur).k = "file") => o.k \notin {"notoken", "exc"}
+    /\ (Class(m, req, cur) = "reference" /\ Resolve(m, trees, req, cur).k = "file") => o.k \notin {"notoken", "exc"}
+    /\ (PhysJudged(m, req) /\ PhysAdmissible(m, trees, req) # {}) => o.k \notin {"notoken", "exc"}
 
 \* the first formula an observation pair contradicts ("" if none)
 Why(m, trees, req, cur, o1, o2) ==
     IF ~Contained(m, trees, o1) \/ ~Contained(m, trees, o2) THEN "Contained"
     ELSE IF ~Deterministic(o1, o2) THEN "Deterministic"
     ELSE IF ~TraversalIsNotFound(m, req, cur, o1) THEN "TraversalIsNotFound"
+    ELSE IF ~PhysicalPathIsTranslated(m, trees, req, o1) THEN "PhysicalPathIsTranslated"
     ELSE IF ~FirstRootWins(m, trees, req, cur, o1) THEN "FirstRootWins"
     ELSE IF ~DeepestPrefixWins(m, trees, req, cur, o1) THEN "DeepestPrefixWins"
     ELSE IF ~ResolvesToReference(m, trees, req, cur, o1) THEN "ResolvesToReference"
@@ -159,6 +185,7 @@ WhyCrash(m, trees, req, cur) ==
     LET c == Class(m, req, cur)
     IN IF c = "traversal" THEN "TraversalIsNotFound"
        ELSE IF c = "reference" /\ Resolve(m, trees, req, cur).k = "file" THEN "ActsOnContent"
+       ELSE IF PhysJudged(m, req) /\ PhysAdmissible(m, trees, req) # {} THEN "ActsOnContent"
        ELSE "Crash"
 
 \* ---------------------------------------------------------------------------
